@@ -106,6 +106,15 @@ fn decode_host(host: &str) -> Option<Cow<str>> {
     }
 }
 
+/// Returns true if `rp_id` is equal to `host` or is a suffix of it that starts at a label boundary.
+fn is_domain_suffix_or_equal(host: &str, rp_id: &str) -> bool {
+    // An RP ID with a leading dot is malformed, it is left to the RP ID validation to reject it.
+    host == rp_id
+        || host
+            .strip_suffix(rp_id)
+            .is_some_and(|prefix| prefix.ends_with('.') || rp_id.starts_with('.'))
+}
+
 /// The origin of a WebAuthn request.
 pub enum Origin<'a> {
     /// A Url, meant for a request in the web browser.
@@ -536,7 +545,7 @@ where
         let mut effective_domain = origin.domain().ok_or(WebauthnError::OriginMissingDomain)?;
 
         if let Some(rp_id) = rp_id {
-            if !effective_domain.ends_with(rp_id) {
+            if !is_domain_suffix_or_equal(effective_domain, rp_id) {
                 return Err(WebauthnError::OriginRpMissmatch);
             }
 
@@ -608,7 +617,7 @@ where
 
         if let Some(rp_id) = rp_id {
             // subset from assert_web_rp_id
-            if !effective_rp_id.ends_with(rp_id) {
+            if !is_domain_suffix_or_equal(effective_rp_id, rp_id) {
                 return Err(WebauthnError::OriginRpMissmatch);
             }
             effective_rp_id = rp_id;
